@@ -205,6 +205,20 @@ var advTemplates = []advTemplate{
 		call := `string.` + f + `(s, "%b()"` + map[string]string{"find": ")", "match": ")", "gsub": `, "")`, "gmatch": ")()"}[f]
 		return `local s = ("("):rep(` + bigN(g) + `) return ` + call
 	}},
+	{"pattern-work-without-progress", func(g *core.Tape) string {
+		// patterns that keep the matcher busy without advancing in the subject: items that fail,
+		// backtracking, comparisons with a long capture
+		switch g.Choose(4) {
+		case 0:
+			return `local s = ("a"):rep(` + []string{"3e5", "1e6", "3e6"}[g.Choose(3)] + `) return s:find("^(a*)%1b")`
+		case 1:
+			return `local s = ("a"):rep(` + []string{"1e5", "1e6"}[g.Choose(2)] + `) return s:find(("b?"):rep(4999) .. "c")`
+		case 2:
+			return `local s = ("a"):rep(` + []string{"1e5", "1e6"}[g.Choose(2)] + `) return s:find(("%f[b]"):rep(50) .. ("b*"):rep(2000) .. "c")`
+		default:
+			return `local s = ("ab"):rep(` + []string{"1e5", "5e5"}[g.Choose(2)] + `) return s:gsub("(a)(b)%2%1%1%2c", "")`
+		}
+	}},
 	{"pattern-items-big-subject", func(g *core.Tape) string {
 		pat := []string{"%f[%d]", "(a)(b)%1%2c", "[^b]*b", "a-b", ".-.-.-c", "%s*$", "[%w_]+%.[%w_]+"}[g.Choose(7)]
 		return `local s = ("ab "):rep(` + bigN(g) + `) return string.find(s, "` + pat + `")`
